@@ -35,8 +35,8 @@ if [ $SUITE -ne 0 ]; then
   SUITE=0
   for pk in $PKGS; do
     okp=0
-    for try in 1 2 3; do
-      if go test -vet=off -count=1 -p 1 $pk > /tmp/evalmut.$$.retry 2>&1; then okp=1; break; fi
+    for try in 1 2 3 4 5 6; do
+      if nice -n -15 go test -vet=off -count=1 -p 1 $pk > /tmp/evalmut.$$.retry 2>&1; then okp=1; break; fi
     done
     [ $okp = 0 ] && SUITE=$((SUITE+1)) && cat /tmp/evalmut.$$.retry | grep "^--- FAIL" | head -3
   done
